@@ -217,6 +217,7 @@ class Vertex(base.BaseObject):
         self._cache_stats()[3] += 1
         self.__qa_nb_cache[args] = answer
 
+    @base.invalidates_when_cut_short("_qa_neighbors_invalidate")
     def add_to_link(self, link: Link):
         """
         Add this vertex to a link.
@@ -249,6 +250,7 @@ class Vertex(base.BaseObject):
 
         self._qa_neighbors_invalidate()
 
+    @base.invalidates_when_cut_short("_qa_neighbors_invalidate")
     def remove_from_link(self, link: Link):
         """
         Remove this vertex from a link.
